@@ -244,6 +244,27 @@ fn main() {
             }
         }
     });
+    // other dialects' notation is not part of the subset: inside a bracket set the texts of
+    // fnmatch's character classes, equivalence classes and collating symbols are ordinary
+    // members ('[', ':', letters) and the first ']' after a member closes the set
+    {
+        let mut t = Tally::new();
+        let mut pats: Vec<String> = vec![];
+        for class in ["alnum", "alpha", "digit", "lower", "upper", "xdigit", "space", "punct", "blank", "cntrl", "graph", "print"] {
+            for shape in ["foo-[[:{}:]]*", "[[:{}:]]", "x[[:{}:]]y", "[![:{}:]]", "[[:{}:]-z]", "[a[:{}:]]*", "[[:{}]", "[:{}:]", "[[:{}:]", "[[.{}.]]", "[[={}=]]"] {
+                pats.push(shape.replace("{}", class));
+            }
+        }
+        let mut names: Vec<String> = ["foo-1.0", "foo-d]", "foo-:]", "foo-[]", "a", "1", ":]", "[]", "d]", "x1y", "xd]y", "x:]y", "A]", "a]", "z]", "-z]", "t-z]", "b", ":", "[", "1]x", "a:]", "p]", ".]", "=]"].iter().map(|x| x.to_string()).collect();
+        names.extend(["foo-", "x]y", "]", "", "g]", "l]"].iter().map(|x| x.to_string()));
+        run.bound(format!("other dialects' notation: {} patterns with the texts of 12 fnmatch classes (and collating / equivalence forms) inside bracket sets x {} names", pats.len(), names.len()));
+        for p in &pats {
+            t.states += 1;
+            t.transitions += names.len() as u64;
+            check(&mut t, p, &names);
+        }
+        run.merge(t);
+    }
     // scale: long patterns and names
     {
         let mut t = Tally::new();
